@@ -41,6 +41,10 @@ package rulelist
 //@   ensures counted-once: p.rulesCount == old(p.rulesCount) || ((p.rulesCount == old(p.rulesCount) + 1 || old(p.rulesCount) == 9223372036854775807) && p.checksum == old(crc32.Update(p.checksum, crc32.IEEETable, bytes.TrimSpace(line))))
 //@   ensures error-not-counted: err != nil && p.rulesCount == old(p.rulesCount) ==> n == 0
 
+//@ func NewParser() (p *Parser)
+//@   property C15
+//@   ensures p != nil && fresh(p)
+//@   modifies nothing
 //@ func (p *Parser) Parse(dst io.Writer, src io.Reader, buf []byte) (r *ParseResult, err error)
 //@   property C15
 //@   modifies *
